@@ -158,6 +158,24 @@ def check_proofs(ctx, prop_files, extra_obligation_files=(), extract_files=()):
             # section-variable assumptions are printed under "Section Variables:"
         res['discharged'] += len(thms)
         res['theorems'] += thms
+    # thorough tier: the independent checker re-checks the compiled property files and everything
+    # they depend on, and lists the axioms (expected: none)
+    if ctx.tier == 'thorough' and not res['broken']:
+        mods = ['Cloak.' + rel.replace('/', '.') for rel in prop_files]
+        lock = open(BUILD + '/lock', 'w')
+        fcntl.flock(lock, fcntl.LOCK_SH)
+        try:
+            rc, out, dt = sh(['coqchk', '-silent', '-o', '-Q', '.', 'Cloak'] + mods, cwd=COQ, timeout=3000)
+        finally:
+            fcntl.flock(lock, fcntl.LOCK_UN)
+        m = re.search(r'\* Axioms:(.*?)\n\s*\n\* Constants', out, re.S)
+        ax = m.group(1).strip() if m else '?'
+        res['coqchk'] = dict(rc=rc, seconds=round(dt, 1), axioms=ax,
+                             type_in_type='<none>' in out.split('type-in-type:')[-1][:20] if 'type-in-type' in out else None)
+        if rc != 0:
+            res['broken'].append(('coqchk ' + ' '.join(mods), out[-2000:]))
+        elif ax != '<none>':
+            res['axioms'] += [a.strip() for a in ax.splitlines() if a.strip()]
     # forbidden declarations anywhere in the development
     bad = []
     for root, _, files in os.walk(COQ):
@@ -222,7 +240,7 @@ def go_test(ctx, pkg, run, files=(), env=None, race=False, timeout=900, synctest
     return sh(cmd, cwd=REPO, env=e, timeout=timeout + 60)
 
 
-def run_model(name, infile, outfile, timeout=1800):
+def run_model(name, infile, outfile, timeout=7200):
     binp = '%s/ocaml/bin/%s' % (V, name)
     if not os.path.exists(binp):
         return 127, 'model binary %s missing (extraction or OCaml build failed)' % binp
@@ -334,6 +352,8 @@ class Verdict:
         cov.setdefault('checker_cmd', pr.get('checker_cmd', 'make'))
         cov['theorems'] = pr.get('theorems', [])
         cov['print_assumptions'] = dict(closed_under_global_context=pr.get('closed', 0), axioms=pr.get('axioms', []))
+        if pr.get('coqchk'):
+            cov['coqchk'] = pr['coqchk']
         cov.setdefault('trusted_base', self.trusted)
         cov['known_findings_seen'] = sorted(self.known_seen.values())
         cov['notes'] = ctx.notes
